@@ -17,9 +17,9 @@
   Text is `List Char` (`Str`).  openQASM programs exist at two levels:
     * structured statements `Stmt` (what the theorems talk about), and
     * the exact text (`Program.render`), which the correspondence run compares character by character with
-      `to_openqasm()`; `parseText` re-reads that text the way `from_openqasm` does (whitespace stripping, header check,
-      removal of gate declarations, split on ';', the regex/slicing glue) and the driver checks on every input that it
-      agrees with the statement-level parser.
+      `to_openqasm()`; `fromOpenqasmText` re-reads that text the way `from_openqasm` does (whitespace stripping, header
+      check, removal of gate declarations, split on ';', the regex/slicing glue) and the driver checks on every input
+      that it agrees with the statement-level parser.
   Gate names are real strings and all finite name tables are the literals regenerated from the repository on every run
   (`Generated/NameTables.lean`).
 -/
